@@ -269,7 +269,7 @@ func hbytes(n, b0 int) V { return V{K: "bytes", N: n, B0: b0, S: []any{}} }
 
 func init() {
 	drivers["claims-read"] = func(a *Args) {
-		r := &claimsRun{a: a, d: loadDomains(a.In), t: NewTracer(a.Out), conc: Conc{a.Rand()}, bysrc: map[string]int{}}
+		r := &claimsRun{a: a, d: loadDomains(a.In), t: NewTracer(a.Out), conc: Conc{r: a.Rand()}, bysrc: map[string]int{}}
 		d := r.d
 		thorough := a.Tier == "thorough"
 		for _, p := range []string{"P1", "P2"} {
